@@ -44,8 +44,57 @@ fn imem_mode(v: &Value) -> Value {
     }
 }
 
+/// The machine set up by the crate's own PC-E500 loaders (ROM window / full system image of `len` bytes): the memory
+/// map they install must keep ROM, the vectors and the no-RAM window unchanged by stores of any width - through
+/// MemoryImage::store and through the CPU bus - while main RAM stays writable.
+fn loader_mode(v: &Value) -> Value {
+    use sc62015_core::pce500::{load_pce500_rom_window, load_pce500_system_image};
+    let which = v.get("loader").and_then(|x| x.as_str()).unwrap_or("window");
+    let len = v.get("len").and_then(|x| x.as_u64()).unwrap_or(0x40000) as usize;
+    let image: Vec<u8> = (0..len).map(|i| ((i * 13 + 5) ^ (i >> 8)) as u8).collect();
+    let mut rt = CoreRuntime::new();
+    let r = if which == "image" { load_pce500_system_image(&mut rt, &image) } else { load_pce500_rom_window(&mut rt, &image) };
+    if let Err(e) = r {
+        return json!({"ok": false, "error": e.to_string()});
+    }
+    let mut changed = Vec::new();
+    let probes: [u32; 9] = [0x00100, 0x20000, 0x3FFFE, 0xC0000, 0xD0000, 0xE1234, 0xFFFFA, 0xFFFFD, 0xFFFFF];
+    for (k, a) in probes.iter().enumerate() {
+        for bits in [8u8, 16, 24] {
+            let span = (bits / 8) as u32;
+            let before: Vec<u32> = (0..span).map(|i| rt.memory.load((*a + i) & 0xFFFFF, 8).unwrap_or(0xFFFF)).collect();
+            let val = 0xA5_5A_C3u32 ^ ((k as u32) << 4) ^ !before[0];
+            let _ = rt.memory.store(*a, bits, val & ((1u64 << bits) - 1) as u32);
+            let after: Vec<u32> = (0..span).map(|i| rt.memory.load((*a + i) & 0xFFFFF, 8).unwrap_or(0xFFFF)).collect();
+            if before != after && *a + span - 1 <= 0xFFFFF {
+                changed.push(json!([a, bits, "store"]));
+            }
+        }
+    }
+    // CPU path: MV [lmn],A at a ROM address and at a RAM address
+    let code: Vec<u8> = vec![0x08, 0x77, 0xA8, 0x00, 0x00, 0x0D, 0xA8, 0x00, 0x81, 0x0B];
+    for (i, b) in code.iter().enumerate() {
+        let _ = rt.memory.store(0xB8000 + i as u32, 8, *b as u32);
+    }
+    let rom_before = rt.memory.load(0xD0000, 8).unwrap_or(0xFFFF);
+    rt.set_reg("PC", 0xB8000);
+    rt.set_reg("S", 0xB9000);
+    rt.timer.enabled = false;
+    let stepped = rt.step(3).map_err(|e| e.to_string());
+    let rom_after = rt.memory.load(0xD0000, 8).unwrap_or(0xFFFF);
+    let ram_after = rt.memory.load(0xB8100, 8).unwrap_or(0xFFFF);
+    if rom_before != rom_after {
+        changed.push(json!([0xD0000, 8, "cpu"]));
+    }
+    json!({"ok": changed.is_empty() && ram_after == 0x77 && stepped.is_ok(), "changed": changed, "ram_after": ram_after,
+           "step": stepped.err(), "loader": which, "len": len})
+}
+
 pub fn main() {
     crate::run_lines(|v| {
+        if v.get("loader").is_some() {
+            return loader_mode(&v);
+        }
         if v.get("imem_n").is_some() {
             return imem_mode(&v);
         }
